@@ -297,7 +297,7 @@ fn summary(msgs: &[Raw], disc: bool) -> String {
 fn oracle_case(rec: &mut Rec, op: &str, class: &str) { rec.directive(op); rec.evaluations += 1; *rec.classes.entry(class.to_string()).or_insert(0) += 1; }
 
 fn rand_chunk(rng: &mut Rng, avail: usize) -> usize {
-	let n = match rng.below(20) { 0..=2 => rng.range(1, 8), 3..=7 => rng.range(1, 100), 8..=14 => rng.range(1, 5000), 15..=17 => rng.range(1, 70000), 18 => 18, _ => avail as u64 } as usize;
+	let n = match rng.below(20) { 0..=3 => rng.range(1, 8), 4..=10 => rng.range(1, 100), 11..=16 => rng.range(1, 5000), 17 | 18 => rng.range(1, 70000), _ => 18 } as usize;
 	n.min(avail).max(1)
 }
 fn rand_budget(rng: &mut Rng) -> usize {
@@ -349,7 +349,7 @@ fn pm_pair_scenario(rec: &mut Rec, rng: &mut Rng, secp: &Secp, n_msgs: usize, bi
 				drop(q);
 				snd.pm.process_events();
 			}
-			let drain = idle > 3 || steps > 200_000;
+			let drain = idle > 40 || steps > 400_000;
 			let mut progress = false;
 			for dir in 0..2 {
 				let a_to_b = (dir == 0) ^ rng.chance(1, 2);
@@ -382,7 +382,7 @@ fn pm_pair_scenario(rec: &mut Rec, rng: &mut Rng, secp: &Secp, n_msgs: usize, bi
 			}
 			if da.s.lock().unwrap().disconnected || db.s.lock().unwrap().disconnected { disc = true; return; }
 			if progress { idle = 0; } else { idle += 1; }
-			if idle > 8 { return; }
+			if idle > 80 { return; }
 		}
 	}));
 	if let Err(p) = r { rec.oracle_fail(format!("PeerManager panicked in a {}-message scenario: {}", n_msgs, p)); return; }
@@ -531,7 +531,7 @@ fn run_peer(args: &Args) {
 	let echo_init = vec![0xfeu8];
 
 	// (1) two PeerManagers: identity delivery under fragmentation / coalescing / back-pressure
-	let (n_long, n_runs, n_small) = if args.thorough { (6000, 60, 300) } else { (1300, 10, 60) };
+	let (n_long, n_runs, n_small) = if args.thorough { (6000, 400, 300) } else { (1300, 60, 120) };
 	pm_pair_scenario(&mut rec, &mut rng, &secp, n_long, 6, true, Plan::Clean, false);
 	pm_pair_scenario(&mut rec, &mut rng, &secp, n_long / 2 + 100, 3, false, Plan::Clean, true);
 	for i in 0..n_runs {
@@ -541,7 +541,7 @@ fn run_peer(args: &Args) {
 	}
 
 	// (2) the harness as peer: protocol rules
-	let n_rules = if args.thorough { 40 } else { 6 };
+	let n_rules = if args.thorough { 60 } else { 12 };
 	for _ in 0..n_rules {
 		let hi = rng.chance(1, 2);
 		// non-Init first message: custom, ping, unknown odd
@@ -574,7 +574,7 @@ fn run_peer(args: &Args) {
 	}
 
 	// (3) garbage instead of a handshake (both directions), no panic, dropped when the act is complete
-	let n_garbage = if args.thorough { 2000 } else { 150 };
+	let n_garbage = if args.thorough { 4000 } else { 400 };
 	for i in 0..n_garbage {
 		let node = make_node(&secp, rand_sk(&mut rng), rng.bytes32());
 		let mut d = Desc::new(9); d.s.lock().unwrap().budget = usize::MAX / 2;
@@ -603,7 +603,7 @@ fn run_peer(args: &Args) {
 	}
 
 	// (4) well-formed but nonsensical messages after a genuine handshake + Init: no panic
-	let n_nonsense = if args.thorough { 400 } else { 40 };
+	let n_nonsense = if args.thorough { 2000 } else { 150 };
 	for _ in 0..n_nonsense {
 		let hi = rng.chance(1, 2); let mut p = match enc_connect(&mut rng, &secp, hi) { Ok(p) => p, Err(e) => { rec.oracle_fail(format!("handshake failed: {}", e)); continue; } };
 		let mut seq: Vec<Vec<u8>> = vec![p.their_init.clone()];
